@@ -44,6 +44,7 @@ func main() {
 		runC02burst()
 	case "C06":
 		runC06http()
+		runC06deadline()
 	case "C18":
 		runC18rf(*seed, *count)
 		if *count >= 10000 {
